@@ -35,6 +35,7 @@ ASSUMPTIONS = [
     "dense obligations at enumerated shapes: 2-3 rows, ranks 1-3 (quick: up to 2x2 and 3x2), one or two matrices per list",
     "columns of the compared matrices are non-zero (the functions raise otherwise); scalings of equivalent factor sets are non-zero",
     "the tolerance cut-off of correlation_index (score < tol -> 0) only maps small values to 0",
+    "correlation_index wrapper (mode-wise methods): the scoring function enters by its contract (recording stub returning fixed distinct scores); method 'stacked' is the known finding and has no such obligation",
 ]
 QUANTIFICATION = "forall entries (reals) at the enumerated shapes; forall sizes for the error metrics; enumerated: shapes, ranks, permutations, sign patterns, absolute_value, methods, axis"
 EXPLANATION = "Definitions in cleared-denominator form; assignment solver by contract; Cauchy-Schwarz as a lemma instance."
